@@ -63,6 +63,15 @@
 #define SLICE_OK(x) ((x)->size == 0 || PTR_R_OK((x)->data, (x)->size))
 
 size_t g_bj, g_bk;   /* arbitrary ghost indices */
+/* The byte-content clauses of the five carriers that write single bytes at a
+ * symbolic offset (fixed64, varint32, varint64, export, slice_export) are
+ * claimed only when g_bcontent is set, and then the precondition restricts
+ * capacity and lengths to BUF_CONTENT_MAX (bounded units *_b).  With
+ * g_bcontent == 0 the same carrier is proved for all sizes (size arithmetic,
+ * representation invariant, pointer stability). */
+int g_bcontent;
+#define BUF_CONTENT_MAX 16
+#define BUF_CONTENT_PRE(z, n) (!g_bcontent || ((z)->alloc <= BUF_CONTENT_MAX && (n) <= BUF_CONTENT_MAX))
 uint8_t g_bold;      /* the byte at g_bj before the call, if g_bj < old size */
 #define BUF_KEEP_PRE(z) (!(g_bj < (z)->size) || g_bold == (z)->data[g_bj])
 #define BUF_KEEP_POST(z, oldsize) (!(g_bj < (oldsize)) || (z)->data[g_bj] == g_bold)
@@ -137,6 +146,7 @@ __CPROVER_ensures(g_bk < x->size ==> zp[V32_SIZE(x->size) + g_bk] == x->data[g_b
 ;
 
 void c_slice_export(ldb_buffer_t *z, const ldb_slice_t *x)
+__CPROVER_requires(BUF_CONTENT_PRE(z, x->size))
 __CPROVER_requires(__CPROVER_rw_ok(z, sizeof(*z)) && BUF_PRE(z) && BUF_KEEP_PRE(z))
 __CPROVER_requires(__CPROVER_r_ok(x, sizeof(*x)) && x->size <= VERIF_U32_MAX && SLICE_OK(x))
 __CPROVER_assigns(z->data, z->size, z->alloc, __CPROVER_object_upto(z->data, z->alloc))
@@ -144,9 +154,9 @@ __CPROVER_frees(z->data)
 __CPROVER_ensures(BUF_POST(z))
 __CPROVER_ensures(z->size == __CPROVER_old(z->size) + V32_SIZE(x->size) + x->size)
 __CPROVER_ensures(BUF_GROW_POST2(z, z->size, __CPROVER_old(z->size) + 5 + x->size, __CPROVER_old(z->data), __CPROVER_old(z->alloc)))
-__CPROVER_ensures(BUF_KEEP_POST(z, __CPROVER_old(z->size)))
-__CPROVER_ensures(LPS_PREFIX_IS(z->data + __CPROVER_old(z->size), x->size))
-__CPROVER_ensures(g_bk < x->size ==> z->data[__CPROVER_old(z->size) + V32_SIZE(x->size) + g_bk] == x->data[g_bk])
+__CPROVER_ensures(g_bcontent ==> (BUF_KEEP_POST(z, __CPROVER_old(z->size))))
+__CPROVER_ensures(g_bcontent ==> (LPS_PREFIX_IS(z->data + __CPROVER_old(z->size), x->size)))
+__CPROVER_ensures(g_bcontent ==> (g_bk < x->size ==> z->data[__CPROVER_old(z->size) + V32_SIZE(x->size) + g_bk] == x->data[g_bk]))
 ;
 
 /* ------------------------------------------------------------ buffer.c */
@@ -310,33 +320,36 @@ __CPROVER_ensures(IS_LE32(z->data + __CPROVER_old(z->size), x))
 ;
 
 void c_buffer_fixed64(ldb_buffer_t *z, uint64_t x)
+__CPROVER_requires(BUF_CONTENT_PRE(z, 0))
 __CPROVER_requires(__CPROVER_rw_ok(z, sizeof(*z)) && BUF_PRE(z) && BUF_KEEP_PRE(z))
 __CPROVER_assigns(z->data, z->size, z->alloc, __CPROVER_object_upto(z->data, z->alloc))
 __CPROVER_frees(z->data)
 __CPROVER_ensures(BUF_POST(z) && z->size == __CPROVER_old(z->size) + 8)
 __CPROVER_ensures(BUF_GROW_POST(z, z->size, __CPROVER_old(z->data), __CPROVER_old(z->alloc)))
-__CPROVER_ensures(BUF_KEEP_POST(z, __CPROVER_old(z->size)))
-__CPROVER_ensures(IS_LE64(z->data + __CPROVER_old(z->size), x))
+__CPROVER_ensures(g_bcontent ==> (BUF_KEEP_POST(z, __CPROVER_old(z->size))))
+__CPROVER_ensures(g_bcontent ==> (IS_LE64(z->data + __CPROVER_old(z->size), x)))
 ;
 
 void c_buffer_varint32(ldb_buffer_t *z, uint32_t x)
+__CPROVER_requires(BUF_CONTENT_PRE(z, 0))
 __CPROVER_requires(__CPROVER_rw_ok(z, sizeof(*z)) && BUF_PRE(z) && BUF_KEEP_PRE(z))
 __CPROVER_assigns(z->data, z->size, z->alloc, __CPROVER_object_upto(z->data, z->alloc))
 __CPROVER_frees(z->data)
 __CPROVER_ensures(BUF_POST(z) && z->size == __CPROVER_old(z->size) + V32_SIZE(x))
 __CPROVER_ensures(BUF_GROW_POST2(z, z->size, __CPROVER_old(z->size) + 5, __CPROVER_old(z->data), __CPROVER_old(z->alloc)))
-__CPROVER_ensures(BUF_KEEP_POST(z, __CPROVER_old(z->size)))
-__CPROVER_ensures(V_WELLFORMED(z->data + __CPROVER_old(z->size), V32_SIZE(x)) && V32_VAL(z->data + __CPROVER_old(z->size), V32_SIZE(x)) == x)
+__CPROVER_ensures(g_bcontent ==> (BUF_KEEP_POST(z, __CPROVER_old(z->size))))
+__CPROVER_ensures(g_bcontent ==> (V_WELLFORMED(z->data + __CPROVER_old(z->size), V32_SIZE(x)) && V32_VAL(z->data + __CPROVER_old(z->size), V32_SIZE(x)) == x))
 ;
 
 void c_buffer_varint64(ldb_buffer_t *z, uint64_t x)
+__CPROVER_requires(BUF_CONTENT_PRE(z, 0))
 __CPROVER_requires(__CPROVER_rw_ok(z, sizeof(*z)) && BUF_PRE(z) && BUF_KEEP_PRE(z))
 __CPROVER_assigns(z->data, z->size, z->alloc, __CPROVER_object_upto(z->data, z->alloc))
 __CPROVER_frees(z->data)
 __CPROVER_ensures(BUF_POST(z) && z->size == __CPROVER_old(z->size) + V64_SIZE(x))
 __CPROVER_ensures(BUF_GROW_POST2(z, z->size, __CPROVER_old(z->size) + 10, __CPROVER_old(z->data), __CPROVER_old(z->alloc)))
-__CPROVER_ensures(BUF_KEEP_POST(z, __CPROVER_old(z->size)))
-__CPROVER_ensures(V_WELLFORMED(z->data + __CPROVER_old(z->size), V64_SIZE(x)) && V64_VAL(z->data + __CPROVER_old(z->size), V64_SIZE(x)) == x)
+__CPROVER_ensures(g_bcontent ==> (BUF_KEEP_POST(z, __CPROVER_old(z->size))))
+__CPROVER_ensures(g_bcontent ==> (V_WELLFORMED(z->data + __CPROVER_old(z->size), V64_SIZE(x)) && V64_VAL(z->data + __CPROVER_old(z->size), V64_SIZE(x)) == x))
 ;
 
 size_t c_buffer_size(const ldb_buffer_t *x)
@@ -356,6 +369,7 @@ __CPROVER_ensures(g_bk < x->size ==> zp[V32_SIZE(x->size) + g_bk] == x->data[g_b
 ;
 
 void c_buffer_export(ldb_buffer_t *z, const ldb_buffer_t *x)
+__CPROVER_requires(BUF_CONTENT_PRE(z, x->size))
 __CPROVER_requires(__CPROVER_rw_ok(z, sizeof(*z)) && BUF_PRE(z) && BUF_KEEP_PRE(z) && !__CPROVER_same_object(z, x))
 __CPROVER_requires(__CPROVER_r_ok(x, sizeof(*x)) && x->size <= VERIF_U32_MAX && SLICE_OK(x))
 __CPROVER_assigns(z->data, z->size, z->alloc, __CPROVER_object_upto(z->data, z->alloc))
@@ -363,9 +377,9 @@ __CPROVER_frees(z->data)
 __CPROVER_ensures(BUF_POST(z))
 __CPROVER_ensures(z->size == __CPROVER_old(z->size) + V32_SIZE(x->size) + x->size)
 __CPROVER_ensures(BUF_GROW_POST2(z, z->size, __CPROVER_old(z->size) + 5 + x->size, __CPROVER_old(z->data), __CPROVER_old(z->alloc)))
-__CPROVER_ensures(BUF_KEEP_POST(z, __CPROVER_old(z->size)))
-__CPROVER_ensures(LPS_PREFIX_IS(z->data + __CPROVER_old(z->size), x->size))
-__CPROVER_ensures(g_bk < x->size ==> z->data[__CPROVER_old(z->size) + V32_SIZE(x->size) + g_bk] == x->data[g_bk])
+__CPROVER_ensures(g_bcontent ==> (BUF_KEEP_POST(z, __CPROVER_old(z->size))))
+__CPROVER_ensures(g_bcontent ==> (LPS_PREFIX_IS(z->data + __CPROVER_old(z->size), x->size)))
+__CPROVER_ensures(g_bcontent ==> (g_bk < x->size ==> z->data[__CPROVER_old(z->size) + V32_SIZE(x->size) + g_bk] == x->data[g_bk]))
 ;
 
 /* readers that copy the payload into an owned buffer */
